@@ -23,6 +23,7 @@ import (
 	"context"
 	"fmt"
 	"os"
+	"regexp"
 	"runtime"
 	"sort"
 	"strconv"
@@ -34,6 +35,7 @@ import (
 	"github.com/google/mtail/internal/metrics"
 	"github.com/google/mtail/internal/metrics/datum"
 	mrt "github.com/google/mtail/internal/runtime"
+	"github.com/google/mtail/internal/zzverif/c20struct"
 	"github.com/google/mtail/internal/zzverif/vlib"
 )
 
@@ -50,7 +52,9 @@ func source(ver int, slow bool) string {
 type Action struct {
 	K    string `json:"k"`              // send | reload
 	N    int    `json:"n,omitempty"`    // send: line number
-	Body int    `json:"body,omitempty"` // send: 0 junk (matches nothing), 1 short, 2 medium (~40 kB), 3 large (~400 kB)
+	Body int    `json:"body,omitempty"` // send: 0 junk (matches nothing), 1 short, 2 medium (~40 kB), 3 large (~400 kB), 4 calibrated (Size bytes)
+	Size int    `json:"size,omitempty"` // body 4: length of the line, calibrated so that the slow pattern needs Secs seconds
+	Secs float64 `json:"secs,omitempty"` // body 4: the target duration
 	Ver  int    `json:"ver,omitempty"`  // reload: new version
 	Slow bool   `json:"slow,omitempty"` // reload: the new version carries the slow pattern
 	Sync bool   `json:"sync,omitempty"` // wait for the fan-out loop to be idle first
@@ -74,8 +78,10 @@ type Case struct {
 	reloadAt []int64  // stamp after each reload returned
 }
 
-func body(kind, n int) string {
+func body(kind, n, size int) string {
 	switch kind {
+	case 4:
+		return fmt.Sprintf("%d %sa", n, strings.Repeat("ab", size/2))
 	case 0:
 		return fmt.Sprintf("x%d junk", n)
 	case 1:
@@ -85,6 +91,26 @@ func body(kind, n int) string {
 	}
 	return fmt.Sprintf("%d %sa", n, strings.Repeat("ab", 200000))
 }
+
+// calibrate measures what the slow pattern costs per byte of line on this
+// machine, now (best of three on a 1 MB probe).
+func calibrate() float64 {
+	re := regexp.MustCompile(`^(?P<n>\d+) (?:.*a){12}$`)
+	probe := body(4, 1, 1<<20)
+	best := time.Hour
+	for i := 0; i < 3; i++ {
+		t := time.Now()
+		if re.FindStringSubmatchIndex(probe) == nil {
+			return 300
+		}
+		if d := time.Since(t); d < best {
+			best = d
+		}
+	}
+	return float64(best.Nanoseconds()) / float64(len(probe))
+}
+
+var longestReload float64
 
 var stackBuf = make([]byte, 256<<10)
 
@@ -131,20 +157,24 @@ func execute(c *Case) {
 	for _, a := range c.Actions {
 		switch a.K {
 		case "send":
-			lines <- logline.New(ctx, "log", body(a.Body, a.N))
+			lines <- logline.New(ctx, "log", body(a.Body, a.N, a.Size))
 		case "reload":
 			if a.Sync && !fanoutIdle() {
 				c.Stuck = true
 			}
+			t0 := time.Now()
 			done := make(chan error, 1)
 			go func() { done <- r.CompileAndRun(progName, strings.NewReader(source(a.Ver, a.Slow))) }()
 			select {
 			case err := <-done:
 				must(err)
-			case <-time.After(20 * time.Second):
+			case <-time.After(90 * time.Second):
 				c.Stuck = true
 				fmt.Fprintln(os.Stderr, "c20: reload did not return")
 				return
+			}
+			if w := time.Since(t0).Seconds(); w > longestReload {
+				longestReload = w
 			}
 			c.reloadAt = append(c.reloadAt, time.Now().UnixNano())
 			grab()
@@ -155,7 +185,7 @@ func execute(c *Case) {
 	go func() { wg.Wait(); close(fin) }()
 	select {
 	case <-fin:
-	case <-time.After(20 * time.Second):
+	case <-time.After(90 * time.Second):
 		c.Stuck = true
 		return
 	}
@@ -283,7 +313,7 @@ func must(err error) {
 
 func checkOracle(out *vlib.Out, c *Case) {
 	if c.Stuck {
-		out.Violate("reload-or-shutdown-stuck", "a reload or the shutdown of the runtime did not complete within 20 s", c)
+		out.Violate("reload-or-shutdown-stuck", "a reload or the shutdown of the runtime did not complete within 90 s", c)
 		return
 	}
 	per := map[int][]Effect{}
@@ -369,6 +399,9 @@ func main() {
 			if x.K == "reload" {
 				reloads++
 				if i > 0 && c.Actions[i-1].K == "send" && c.Actions[i-1].Body >= 2 {
+					if c.Actions[i-1].Body == 4 {
+						out.Count("reload-while-previous-version-busy-for-seconds")
+					}
 					busy = true
 				}
 			}
@@ -423,6 +456,29 @@ func main() {
 		runCase(c, "busy")
 	}
 
+	// ---- 1b. the old version stays busy for SECONDS after the reload was
+	// requested (a wait for the old vm that is bounded by any timeout shorter
+	// than that shows here); the line length is calibrated on this machine
+	durs := []float64{3.5}
+	if a.Thorough() {
+		durs = []float64{1.5, 3.5, 7, 14}
+	}
+	perByte := calibrate()
+	out.Extra["slow_pattern_ns_per_byte"] = perByte
+	for _, d := range durs {
+		size := int(d * 1e9 / perByte)
+		if size > 400<<20 {
+			size = 400 << 20
+		}
+		c := &Case{Slow0: true, Actions: []Action{
+			{K: "send", N: 1, Body: 1},
+			{K: "send", N: 2, Body: 4, Size: size, Secs: d},
+			{K: "reload", Ver: 2, Sync: true},
+			{K: "send", N: 3, Body: 1},
+		}}
+		runCase(c, fmt.Sprintf("busy-%.1fs", d))
+	}
+
 	// ---- 2. random interleavings of lines and reloads
 	nr := 400
 	if a.Thorough() {
@@ -452,5 +508,8 @@ func main() {
 		}
 		runCase(c, "random")
 	}
-	out.Flush("sequences of 2-8 actions (send a junk / short / ~40 kB / ~400 kB line; reload to a new version, with or without waiting for the fan-out loop to be idle) through a real runtime.Runtime, the first scenarios being 'old version busy on a 400 kB line, reload, next line'; a case is non-trivial when it contains a reload and at least two lines with an effect", false)
+	out.Extra["longest_reload_wait_s"] = longestReload
+	// structural correspondence (coq/Corr/Run_C20_struct.v): oracle entries now, extra shard after Flush
+	defer c20struct.Attach(out, a.Out)()
+	out.Flush("sequences of 2-8 actions (send a junk / short / ~40 kB / ~400 kB line; reload to a new version, with or without waiting for the fan-out loop to be idle) through a real runtime.Runtime, the first scenarios being 'old version busy on a 400 kB line (~0.1 s), reload, next line' and 'old version busy for 3.5 s (thorough: 1.5-14 s; line length calibrated on the spot) after the reload was requested, next line'; a case is non-trivial when it contains a reload and at least two lines with an effect", false)
 }
